@@ -141,7 +141,7 @@ func (g *Gen) Device(t *Config, nedits int) (*Store, []string) {
 		return p, g.Rng.Intn(len(p.Rules))
 	}
 	for k := 0; k < nedits; k++ {
-		switch g.Rng.Intn(15) {
+		switch g.Rng.Intn(16) {
 		case 0: // rename a group on device
 			if len(s.Groups) > 0 {
 				gr := s.Groups[g.Rng.Intn(len(s.Groups))]
@@ -222,6 +222,23 @@ func (g *Gen) Device(t *Config, nedits int) (*Store, []string) {
 					r.Action, r.SequenceNumber = "DROP", 30
 				}
 				ops = append(ops, "rule-attribute")
+			}
+		case 15: // device holds rule X with other content and another rule named X-1
+			if p, i := someRule(); p != nil && len(p.Rules) > 1 {
+				j := g.Rng.Intn(len(p.Rules) - 1)
+				if j >= i {
+					j++
+				}
+				nn := p.Rules[i].Id + "-1"
+				free := true
+				for _, r := range p.Rules {
+					free = free && r.Id != nn
+				}
+				if free {
+					p.Rules[j].Id = nn
+					p.Rules[i].DestinationGroups = []string{g.addr()}
+					ops = append(ops, "rule-id-suffix-clash")
+				}
 			}
 		case 8: // rule ids clash: device rule ids shifted
 			if p, _ := someRule(); p != nil {
